@@ -10,6 +10,8 @@ package rt
 //@   ensures fresh(result) && off(result) == 0 && len(result) == old.Len && cap(result) >= newCap
 //@   ensures txt(result) == txt(old)
 //@   ensures forall j int :: (0 <= j && j < old.Len) ==> result[j] == old[j]
+//@   ensures forall j int :: (0 <= j && j < old.Len) ==> rawat(result.Ptr, j) == rawat(old.Ptr, ptrindex(old.Ptr) + j)
+//@   ensures forall lo int, n int :: { rawtxtat(result.Ptr, lo, n) } (0 <= lo && 0 <= n && lo + n <= old.Len) ==> rawtxtat(result.Ptr, lo, n) == rawtxtat(old.Ptr, ptrindex(old.Ptr) + lo, n)
 
 // GuardSlice2: the result has the same contents and at least n bytes of spare capacity.
 //@ func GuardSlice2 props C05,C06,C20
